@@ -407,6 +407,34 @@ func (e *Enc) checkProtected(l *lvalue, st *State, write bool, pos token.Pos) {
 
 // isProtectedKey reports whether a state key holds a field (or ghost field) declared protected_by.
 func (e *Enc) isProtectedKey(k string) bool {
+	if strings.HasPrefix(k, "MD:") || strings.HasPrefix(k, "MV:") {
+		// contents of maps held in protected fields
+		for tn, sc := range e.w.CS.Structs {
+			t := e.resolveType(tn)
+			if t == nil {
+				continue
+			}
+			su, ok := t.Underlying().(*types.Struct)
+			if !ok {
+				continue
+			}
+			for _, fields := range sc.Protected {
+				for _, f := range fields {
+					for i := 0; i < su.NumFields(); i++ {
+						if su.Field(i).Name() == f {
+							if mt, ok := su.Field(i).Type().Underlying().(*types.Map); ok {
+								dk, _, vk, _ := e.mapKeys(mt)
+								if k == dk || k == vk {
+									return true
+								}
+							}
+						}
+					}
+				}
+			}
+		}
+		return false
+	}
 	for tn, sc := range e.w.CS.Structs {
 		for _, fields := range sc.Protected {
 			for _, f := range fields {
@@ -450,6 +478,27 @@ func (e *Enc) relyAll(before, after *State, guard string) {
 		for _, mf := range mfs {
 			for _, c := range sc.Relies[mf] {
 				e.assume(fmt.Sprintf("(=> %s (forall ((|q:this| Ref)) %s))", guard, ctx.evalBool(c)))
+			}
+			// state protected by a lock this goroutine holds (exclusively) is not changed by anyone else
+			m := mutexRef{structT: t, field: mf, obj: "|q:this|", ok: true}
+			lk, ls := e.lockKey(m, false)
+			held := fmt.Sprintf("(select %s |q:this|)", e.get(before, lk, ls))
+			var eqs []string
+			for _, pk := range e.protectedKeys(m) {
+				eqs = append(eqs, fmt.Sprintf("(= (select %s |q:this|) (select %s |q:this|))", e.get(after, pk[0], pk[1]), e.get(before, pk[0], pk[1])))
+			}
+			for _, f := range e.protectedFields(m) {
+				if mt, ok := f.Type().Underlying().(*types.Map); ok {
+					fk, fks := e.fieldKey(t, f)
+					mref := fmt.Sprintf("(select %s |q:this|)", e.get(before, fk, fks))
+					dk, ds, vk, vs := e.mapKeys(mt)
+					for _, kk := range [][2]string{{dk, ds}, {vk, vs}} {
+						eqs = append(eqs, fmt.Sprintf("(= (select %s %s) (select %s %s))", e.get(after, kk[0], kk[1]), mref, e.get(before, kk[0], kk[1]), mref))
+					}
+				}
+			}
+			if len(eqs) > 0 {
+				e.assume(fmt.Sprintf("(=> %s (forall ((|q:this| Ref)) (=> %s (and %s))))", guard, held, strings.Join(eqs, " ")))
 			}
 		}
 	}
